@@ -259,7 +259,10 @@ def related_notes(r, iv, hz, vel):
         na = max(0.0, a + da)
         nb = max(na + 1 / Q, b + db)
         dp = r.choice([0, 0, 0, 0.25, -0.25, 0.5, -0.5, 1, -1, 12, -12, 0.375,
-                       0.4995, -0.4995, 0.5005, 0.2495, 0.9995])
+                       0.4995, -0.4995, 0.5005, 0.2495, 0.9995,
+                       # 3e-5 cent either side of 50 cents: 1e7 times the rounding
+                       # error of the cent distance, inside any 4-decimal rounding
+                       0.5000003, 0.4999997, -0.5000003])
         out_iv.append([na, nb])
         out_hz.append(p * 2.0 ** (dp / 12.0))
         out_vel.append(float(min(127, max(0, v + r.choice([0, 0, 5, -5, 20, -40])))))
@@ -328,7 +331,16 @@ def related_multipitch(r, times, frames):
         return et, ef
     if kind == "shifted_times":
         # offset by 1/256 so that nearest-frame ties cannot occur
-        return times + r.choice([1, -1, 3]) / 256.0 + 0.0, est_frames
+        t2 = times + r.choice([1, -1, 3]) / 256.0 + 0.0
+        if t2.size >= 2 and r.random() < 0.25:
+            # a repeated time stamp (time stamps need only be non-decreasing); the
+            # two frames hold the same pitches so the nearest frame is unambiguous
+            k = r.randrange(1, t2.size)
+            t2 = t2.copy()
+            t2[k] = t2[k - 1]
+            est_frames = list(est_frames)
+            est_frames[k] = est_frames[k - 1].copy()
+        return t2, est_frames
     if kind == "shorter":
         k = r.randrange(0, len(est_frames) + 1)
         a = r.randrange(0, len(est_frames) - k + 1)
